@@ -107,7 +107,7 @@ def model_specs(draw, forced_one_in=30):
             mets.append(_met(on, ext))
             emets.append(on)
             ann = draw(st.sampled_from([{}, {}, {}, {"sbo": SBO_EX}, {"sbo": "sbo:0000627"}, {"sbo": [SBO_EX, "SBO:0000000"]}]))
-            tlb, tub = draw(st.sampled_from([(-100, 100)] * 7 + [(0, 100), (0, 100), (0, 10), (0, 10), (-100, 0)]))
+            tlb, tub = draw(st.sampled_from([(-100, 100)] * 4 + [(-1000, 1000)] * 3 + [(0, 100), (0, 1000), (0, 10), (0, 10), (-100, 0)]))
             rxns.append(_rxn(f"T_x{k}", {on: -1, cid: 1}, tlb, tub))
         can_in, can_out = sbo_only or tub > 0, sbo_only or tlb < 0
         imp = draw(st.sampled_from([0, 1, 5, 5, 10, 10, 10, 100, 100, 2.5]))
@@ -140,7 +140,7 @@ def model_specs(draw, forced_one_in=30):
     if rest and draw(st.integers(0, 2)) > 0:  # by-product that has to leave the cell
         out_pool = [m for m in rest if m in exportable]
         bio[draw(st.sampled_from(out_pool if out_pool and draw(st.integers(0, 3)) > 0 else rest))] = draw(st.sampled_from([1, 1, 2]))
-    rxns.append(_rxn("BIOMASS", bio, 0, draw(st.sampled_from([100, 100, 1000, 10]))))
+    rxns.append(_rxn("BIOMASS", bio, 0, draw(st.sampled_from([100, 1000, 1000, 10]))))
 
     if n_ex >= 2:
         n_conv = draw(st.integers(0, 3))
